@@ -886,6 +886,72 @@ impl Shape {
     }
 }
 
+impl Shape {
+    /// C02 for a language drawn at random (`userlang.rs`): a store of that language, titles made of the pieces its tables
+    /// mention; every hit carries an id that was added, no NUL, and - markers deleted - the stored title with the language's
+    /// compositions applied (by the case's own reading of the table) and NULs dropped.
+    fn user_lang_titles(&self, cx: &mut Cx) {
+        let mut ul = crate::userlang::UserLang::random(&mut cx.rng);
+        let desc = ul.desc();
+        let n = cx.rng.range(1, 4);
+        let recs: Vec<Rec> = (0..n).map(|i| (i + 1, ul.text(&mut cx.rng, 4), cx.rng.below(5))).collect();
+        let mut store = Store::new();
+        store.lang = std::mem::replace(&mut ul.lang, Lang::new());
+        store.limit = 10;
+        store.highlight_with((&S1.to_string(), &S2.to_string()));
+        for r in &recs {
+            let rec = Record::new(r.0, &r.1, r.2, &store.lang);
+            store.add(rec);
+        }
+        cx.count("stores of a language drawn at random");
+        for qk in 0..6 {
+            // queries: nothing, a stretch of a title as it was typed, a whole title, another text of the language
+            let t: Vec<char> = cx.rng.pick(&recs).1.chars().collect();
+            let q: String = match qk {
+                0 => String::new(),
+                1 => s(&t),
+                5 => ul.word(&mut cx.rng, 3),
+                _ if t.is_empty() => String::new(),
+                _ => {
+                    let a = cx.rng.below(t.len());
+                    let b = cx.rng.range(a + 1, t.len());
+                    s(&t[a..b])
+                }
+            };
+            cx.ctx(format!("C02 user-defined language {} recs={:?} q={:?}", desc, recs, q));
+            let hits: Hits = store.search(&tokenize_query(&q, &store.lang).to_ref()).into_iter().map(|r| (r.id, r.title)).collect();
+            cx.eval();
+            for hit in &hits {
+                cx.eval();
+                let describe = |hit: &(usize, String)| json!({"language": "defined by the case through the public Lang API", "tables": desc, "records": recs, "query": q, "hit": {"id": hit.0, "title": hit.1}});
+                let rec = match recs.iter().find(|r| r.0 == hit.0) {
+                    None => {
+                        cx.fail("unknown-id", describe(hit));
+                        continue;
+                    }
+                    Some(r) => r,
+                };
+                if hit.1.contains('\0') {
+                    cx.fail("nul-in-title", describe(hit));
+                }
+                let stripped = oracle::strip_sentinels(&hit.1);
+                let expect: String = ul.composed(&cv(&rec.1)).into_iter().filter(|c| *c != '\0').collect();
+                if stripped != expect {
+                    cx.fail("title-altered", json!({"language": "defined by the case through the public Lang API", "tables": desc, "stored": rec.1, "query": q, "returned": hit.1, "expected_without_markers": expect}));
+                }
+                cx.count("hits in stores of a random language");
+                if hit.1.contains(S1) {
+                    cx.count("hits with a span in stores of a random language");
+                    if expect != rec.1.replace('\0', "") {
+                        cx.count("hits with a span whose title a random language composed");
+                        cx.key(hparts(&["userlang", &desc.to_string(), &rec.1, &q]));
+                    }
+                }
+            }
+        }
+    }
+}
+
 impl Prop for Shape {
     fn id(&self) -> &'static str {
         match self.0 {
@@ -903,7 +969,7 @@ impl Prop for Shape {
     }
     fn streams(&self) -> Vec<Stream> {
         match self.0 {
-            Which::Titles => vec![Stream::new("stores", 16000, 800000), Stream::new("bridge", 3200, 160000)],
+            Which::Titles => vec![Stream::new("stores", 16000, 800000), Stream::new("bridge", 3200, 160000), Stream::new("userlang", 4000, 200000)],
             Which::Related => vec![Stream::new("stores", 16000, 800000), Stream::new("exact", 168, 8400), Stream::new("joined", 8000, 400000), Stream::new("corpus", 64, 1600), Stream::new("big", 16, 160), Stream::new("session", 16, 96)],
             Which::Markup => vec![Stream::new("stores", 20000, 1000000), Stream::new("joined", 16000, 800000)],
         }
@@ -918,6 +984,7 @@ impl Prop for Shape {
     fn run(&self, cx: &mut Cx, stream: &str, idx: u64) {
         let lang = LANGS[(idx % NL) as usize];
         match stream {
+            "userlang" => self.user_lang_titles(cx),
             "stores" => self.store_case(cx, lang),
             "exact" => self.exact_prefix_case(cx, lang),
             "bridge" => self.bridge_case(cx, lang),
